@@ -147,6 +147,23 @@ CHECKS["C13"] = {
     "assumptions": ["backoff jitter is disabled (RetryRandomization = 0) so that retry delays are a function of the tape"],
 }
 
+CHECKS["C18"] = {
+    "pkg": "clienth",
+    "quick": {"wall_s": 25, "race_wall_s": 12, "race_max_runs": 1000},
+    "thorough": {"wall_s": 300, "race_wall_s": 120, "race_max_runs": 1800},
+    "rule": "Scenario: client.Reconnect (or a bare client) over BaseClient or CacheClient with 1..3 scripted client types registered through "
+            "client.RegisterTest; per attempt: slow connect, Subscribe failure, 0..4 messages (1..3 notifications each, syncs), then error / "
+            "EOF / ErrStopReading / block until Close or cancellation; retry base/max delay drawn per run, jitter off. An actor task calls "
+            "Close or cancels the context before Subscribe, after 0..60 scheduling points, or after a virtual wait up to two minutes (during "
+            "connect, while streaming, in back-off). Oracles: both calls return (quiescence = deadlock) and Subscribe within the back-off "
+            "maximum in virtual time; never-closed reconnecting clients keep retrying; disconnect once per ended attempt and reset before each "
+            "retry; Connected first and notification order as produced; at most one further message after Close returned. "
+            "Non-trivial: more than two recorded events.",
+    "real": ["client (BaseClient, CacheClient, ReconnectClient, getFirst/NewImpl registry; instrumented)", "ctree", "cenkalti/backoff"],
+    "stub": ["client.Impl (scripted by the harness through client.RegisterTest)"],
+    "assumptions": ["backoff jitter disabled (RetryRandomization = 0)"],
+}
+
 UNDER_CONSTRUCTION = "check under construction, not claimed yet"
 NOT_APPLICABLE = {p: UNDER_CONSTRUCTION for p in ["C%02d" % i for i in range(1, 21)]}
 NOT_APPLICABLE["C19"] = ("pure functions of their input (path indexing, value conversion): no schedule, clock, fault, peer or "
@@ -160,6 +177,14 @@ _SUB_NOTE = ("Trusts the harness's reading of paths (sim/gen), the cache referen
              "stream's gRPC semantics (FIFO, reliable, window-limited) and interval reasoning on global event stamps. Leaves that are only "
              "stream-compatible with a subscription (shorter than its path) are outside 'matching content' and not judged.")
 LEVELS = {
+    "C18": {
+        "text": "Seeded search over the moment of Close / cancellation relative to Subscribe (before it, inside the initDone hand-shake, during a "
+                "slow connect, while streaming, in back-off) and over scripted stream outcomes, in virtual time; termination is decided by "
+                "simulator quiescence and a virtual-time bound, callback discipline by an automaton over recorded events. Evidence, not proof.",
+        "design_ref": "7 C18",
+        "note": "The Impl under the client is the harness's scripted one (it emits Connected itself); the real gNMI Impl's Connected-first behaviour is exercised by the pipeline harness.",
+        "technique": "deterministic simulation: seeded scheduler + virtual time + scripted stream faults + termination by quiescence",
+    },
     "C13": {
         "text": "Seeded search over schedules and fault sequences (stream errors, end of stream, silence past the receive timeout, dial refusal "
                 "and stalls, forced reconnects, removal at arbitrary virtual times) with minute-long back-offs and timeouts costing "
